@@ -71,6 +71,13 @@ def _ordinal(sites, line, tok):
 def run(repo, rep):
     from ..pitfalls import memo_rule as _memo_rule
     _memo_rule(repo, rep, 'C16', 'C16.Z1')
+    rep.rule('C16.R7', 'data sets and command sets are encoded into a buffer that is created in the call, or held per thread and emptied '
+             'before the first write: the bytes of a message never contain what another thread or an earlier, failed encode wrote '
+             '(same analysis as C08.M7)', 1)
+    from ..pitfalls import writer_reuse_problems as _wrp
+    _sh, _st, _nw = _wrp(repo)
+    rep.check(not (_sh or _st), 'C16.R7', 'dsutils:writers', repo.module('dsutils').relpath, '%d write sites: buffers fresh, or per-thread and '
+              'emptied first' % _nw, '; '.join(_sh + _st))
     rep.trust('C18 for the pending classification; C06/C07 for the wire; CPython generator semantics')
     rep.rule('C16.R1', 'provider: each iteration of the match loop sends exactly one response with that match\'s status and '
              'data set; after the loop one final non-pending response; the query data set is decoded with the context\'s '
